@@ -60,8 +60,13 @@ fn line_col(text: &str, off: usize) -> (u32, u32) {
 
 pub fn write_disk(root: &Path, lib: usize, sib: usize) {
     std::fs::create_dir_all(root.join("Lib")).ok();
-    std::fs::write(root.join("Lib/lib.gom"), LIB[lib]).ok();
-    std::fs::write(root.join("helper.gom"), SIB[sib]).ok();
+    // an edit touches the file it changes and nothing else (as saving one file in an editor does): a file whose
+    // contents stay the same keeps its modification time
+    for (path, text) in [(root.join("Lib/lib.gom"), LIB[lib]), (root.join("helper.gom"), SIB[sib])] {
+        if std::fs::read_to_string(&path).ok().as_deref() != Some(text) {
+            std::fs::write(&path, text).ok();
+        }
+    }
 }
 
 pub fn ask(root: &Path, kind: &str, marked: &str) -> String {
